@@ -358,4 +358,7 @@ pub fn run(ctx: &Ctx) {
         );
     }
     ctx.replay_known("programs", |p: &Prog| e1::without_exclusions(|| oracle(p)));
+    // direct permutation calls (sponge / Merkle rows): exposed outputs and committed row inputs = model
+    ctx.explore("perm-programs", crate::checks::pp::RULE_VALUES, ctx.tier.pick(20_000, 1_000_000),
+        crate::checks::pp::strategy, |c| crate::checks::pp::oracle_values(c, "C02/perm-programs"));
 }
